@@ -27,14 +27,14 @@
 #define MAXT 4
 #define MAXOPS 8
 #define MAXOBJ 3
-#define MAXSTATE 32
+#define MAXSTATE 144
 #define MAXPRE 8192
 #define STACKSZ (256 * 1024)
 #define CONTENDED_CAP 4000
 #define DRAIN_CAP 120000
 #define DRAIN_QUANTUM 200
 
-enum { K_BOOL, K_INT, K_FLOAT, K_DOUBLE, K_PTR, K_FLAG, K_SPIN, K_TICKET };
+enum { K_BOOL, K_INT, K_FLOAT, K_DOUBLE, K_PTR, K_FLAG, K_SPIN, K_TICKET, K_TSTACK };
 enum { S_RANDOM, S_PCT, S_TARGET, S_STALL, S_SERIAL, S_REPLAY, NSTRAT };
 static const char *stratname[] = {"random", "pct", "targeted", "stall", "serial", "replay"};
 enum { C_OK, C_NONLIN, C_LIVELOCK, C_NEIGHBOUR, C_CRASH };
@@ -111,6 +111,7 @@ static int tkind_of(const struct opinfo *o) {
   if (o->storage == 5) {
     if (!strcmp(o->opname, "spin")) return K_SPIN;
     if (!strcmp(o->opname, "ticket")) return K_TICKET;
+    if (!strcmp(o->opname, "tpush") || !strcmp(o->opname, "tpopall")) return K_TSTACK;
     return K_INT;
   }
   if (!strcmp(o->type, "_Bool")) return K_BOOL;
@@ -512,8 +513,41 @@ static int lin_dfs(uint32_t mask, const unsigned char *st) {
   return 0;
 }
 
+// hand-off list: every pushed node is delivered exactly once (or is still in the list), no batch is cyclic
+static int check_tstack(const Plan *p, Result *r, int j) {
+  long pushed = 0, seen = 0;
+  for (int t = 0; t < p->nthreads; t++)
+    for (int k = 0; k < p->nops[t]; k++) {
+      const POp *o = &p->ops[t][k];
+      if (o->obj != j) continue;
+      if (!strcmp(optable[o->op].opname, "tpush")) { pushed |= 1L << (o->a & 7); continue; }
+      long ret = r->r[t][k].ret;
+      if (ret < 0) { snprintf(r->detail, sizeof r->detail, "thread %d's detach-all walked a cyclic or over-long batch", t); return 0; }
+      long mask = ret & 0xffffffff, cnt = ret >> 32;
+      if (__builtin_popcountl(mask) != cnt) { snprintf(r->detail, sizeof r->detail, "a node appears twice in one batch (thread %d)", t); return 0; }
+      if (seen & mask) { snprintf(r->detail, sizeof r->detail, "node(s) %lx delivered twice", seen & mask); return 0; }
+      seen |= mask;
+    }
+  // what is still in the list at the end (walk the real object: its links are addresses inside it)
+  struct tn { struct tn *next; long id; };
+  struct tn *h = *(struct tn **)objaddr[j];
+  long rest = 0;
+  for (int g = 0; h; h = h->next) {
+    if (++g > 16 || (char *)h < (char *)objaddr[j] || (char *)h >= (char *)objaddr[j] + 136) { snprintf(r->detail, sizeof r->detail, "the remaining list is cyclic or points outside the object"); return 0; }
+    if (rest >> h->id & 1) { snprintf(r->detail, sizeof r->detail, "node %ld twice in the remaining list", h->id); return 0; }
+    rest |= 1L << h->id;
+  }
+  if (seen & rest) { snprintf(r->detail, sizeof r->detail, "node(s) %lx delivered and still in the list", seen & rest); return 0; }
+  if ((seen | rest) != pushed) { snprintf(r->detail, sizeof r->detail, "pushed %lx, delivered %lx, remaining %lx: node(s) %lx lost", pushed, seen, rest, pushed & ~(seen | rest)); return 0; }
+  return 1;
+}
+
 static int check_linearizable(const Plan *p, Result *r) {
   for (int j = 0; j < p->nobj; j++) {
+    if (tkind_of(&optable[group_ops[group_first[p->obj[j].group]]]) == K_TSTACK) {
+      if (!check_tstack(p, r, j)) { r->badobj = j; return 0; }
+      continue;
+    }
     nhist = 0;
     hsize = p->obj[j].size;
     for (int t = 0; t < p->nthreads; t++)
@@ -606,7 +640,8 @@ static void run_plan(const Plan *p, Result *r) {
   if (check_neighbours(p, r)) { r->cls = C_NEIGHBOUR; return; }
   if (!check_linearizable(p, r)) {
     r->cls = C_NONLIN;
-    snprintf(r->detail, sizeof r->detail, "no sequential order of the operations on object %d explains the observed results and final value", r->badobj);
+    if (!r->detail[0])
+      snprintf(r->detail, sizeof r->detail, "no sequential order of the operations on object %d explains the observed results and final value", r->badobj);
   }
 }
 
@@ -630,6 +665,7 @@ static void gen_init(PObj *o, int kind, int size, int domain) {
   case K_DOUBLE: { double d = (double)v; memcpy(o->init, &d, 8); break; }
   case K_PTR: { long q = v * 8; memcpy(o->init, &q, 8); break; }
   case K_SPIN: memcpy(o->init + 8, &v, 8); break;
+  case K_TSTACK: break; // empty list, all links null
   case K_TICKET: {
     unsigned n = below(3) == 0 ? 0xfffffffdu + below(3) : (unsigned)below(5);
     memcpy(o->init, &n, 4);
@@ -690,6 +726,7 @@ static int gen(Plan *p, uint64_t seed) {
   // automatic storage: one object owned by thread 0's frame, the other threads reach it through its address
   if (p->nobj == 1 && usable_in_group2(p->obj[0].group, 0x1ff, 1) && below(3) == 0) p->obj[0].local = 1;
   int idx = 0;
+  int tpush_used[MAXOBJ] = {0};
   long used_a[MAXOBJ][MAXT * MAXOPS];
   int nused[MAXOBJ] = {0};
   for (int t = 0; t < p->nthreads; t++) {
@@ -709,6 +746,11 @@ static int gen(Plan *p, uint64_t seed) {
       o->op = op;
       o->obj = j;
       o->a = gen_value(domain, idx++);
+      if (!strcmp(optable[op].opname, "tpush")) {
+        // a node is pushed at most once per run; when the eight nodes are used up the operation becomes a detach-all
+        if (tpush_used[j] >= 8) { for (int c = 0; c < noptable; c++) if (!strcmp(optable[c].opname, "tpopall")) o->op = c; }
+        else o->a = tpush_used[j]++;
+      }
       if (optable[op].usesb) {
         int kind = tkind_of(&optable[op]);
         int c = below(4);
@@ -913,6 +955,7 @@ static void minimise(Plan *p, const Result *r0, int cls) {
     for (int k = 0; k < best.nops[t]; k++) {
       for (int v = 0; v < 2; v++) {
         cand = best;
+        if (!strcmp(optable[cand.ops[t][k].op].opname, "tpush")) break; // the operand names the node
         if (cand.ops[t][k].a == (v ? 1 : 0) + 1) continue;
         cand.ops[t][k].a = (v ? 1 : 0) + 1;
         if (still_fails(&cand, cls, 0)) { best = cand; break; }
